@@ -296,6 +296,15 @@ func (h *H) Compact(mode string, i, j int) string {
 	return "ok"
 }
 
+// CompactAllFiles fully compacts all TSM files of the shard (if there are at least two).
+func (h *H) CompactAllFiles() string {
+	n := len(h.Files())
+	if n < 2 {
+		return "ok"
+	}
+	return h.Compact("full", 0, n-1)
+}
+
 // Delete removes [tmin,tmax] of the series of a measurement (optionally one tag pair).
 func (h *H) Delete(meas, tagPred string, tmin, tmax int64) string {
 	return h.DeleteB(meas, tagPred, &tmin, &tmax)
